@@ -26,7 +26,7 @@ pub static DEF: CheckDef = CheckDef {
     generate,
     execute,
     shrink,
-    rule: "each run = 2..16 (quick) / 2..40 (thorough) real nodes, identity configuration (a) app id = transport id or (b) distinct app id, topology drawn from 7 shapes, K in 1..20, 1..6 serial lookups with counts 0..64 and keys random / a node position / adjacent; one run in three is fault-free; others draw silence, slow nodes, message drops, dial refusals/black holes and 0..2 lying stubs; non-trivial = a lookup that sent at least 2 requests; distinct = distinct hash of the (request, reply, result) log",
+    rule: "each run = 2..16 (quick) / 2..40 (thorough) real nodes, identity configuration (a) app id = transport id or (b) distinct app id, topology drawn from 7 shapes, K in 1..20, 1..6 serial lookups with counts 0..64 and keys random / a node position / adjacent; one run in three is fault-free; others draw silence, slow nodes, message drops, dial refusals/black holes and 0..2 lying stubs; one run in twelve is a candidate-queue flood (12..16 lying stubs each answering with 20 made-up contacts, a real node adjacent to the key named only after the tenth reply); non-trivial = a lookup that sent at least 2 requests; distinct = distinct hash of the (request, reply, result) log",
     real_components: &["TransportHandle (framing, receive loop, peer registry, connect/send paths up to the seam)", "DhtNetworkManager (iterative lookup, request/response correlation, handlers)", "DhtCoreEngine / routing table"],
     stubbed_components: &["ant-quic (connection establishment, streams): in-memory network with seeded latency", "Byzantine peers: scripted stubs speaking the wire format"],
     assumptions: &["wire timestamps read the real clock (runs last milliseconds of wall time)", "interleavings are those of a current-thread runtime permuted by seeded latencies"],
@@ -56,8 +56,29 @@ pub fn gen_topology(r: &mut Rng, n: u64, topo: &str) -> Vec<(u64, u64)> {
     e
 }
 
+/// One run in twelve: a candidate-queue flood. The origin knows 12..16 lying stubs that sit on the
+/// key's side of the id space; each answers with 20 made-up far contacts, so the queue of unqueried
+/// candidates reaches its cap (200) after ten replies; later replies also name a real node that is
+/// adjacent to the key and that nobody else mentions.
+fn generate_flood(seed: u64, r: &mut Rng) -> Value {
+    let nodes: Vec<Value> = (0..3u64).map(|i| json!({"tid_salt": r.below(1 << 40), "ip": [10 + 40 * i, 1, r.below(250), 1 + i], "port": 9000 + i})).collect();
+    // node 1 is the hidden node: the key is adjacent to its position
+    let hidden_pos = derive_dht_key_from_peer_id(&hex::encode(node_tid(&nodes[1])));
+    let nl = r.range(12, 16);
+    let mut liars = Vec::new();
+    while (liars.len() as u64) < nl {
+        let salt = r.below(1 << 40);
+        let tid = hex::encode(Rng::new(salt ^ 0x11a2).arr32());
+        if (derive_dht_key_from_peer_id(&tid)[0] ^ hidden_pos[0]) & 0x80 == 0 { liars.push(json!({"script": "flood", "knows": 0, "tid_salt": salt})); }
+    }
+    json!({"property": "C01", "seed": seed, "net_seed": r.below(1 << 40), "n": 3, "topology": "flood", "edges": [[0, 2]], "ident": "a", "k": *r.pick(&[20u64, 50]), "timeout_ms": 1000,
+           "nodes": nodes, "lookups": [{"node": 0, "key": "adjacent", "key_of": 1, "key_salt": 0, "count": 64, "via": "closest"}],
+           "faults": {"silence": [], "slow": [], "drops": [], "dial": []}, "fault_free": false, "liars": liars, "hidden": 1, "latency_ms": 2, "jitter_ms": *r.pick(&[0u64, 3])})
+}
+
 fn generate(seed: u64, tier: Tier) -> Value {
     let mut r = Rng::new(seed);
+    if r.chance(1, 12) { return generate_flood(seed, &mut r); }
     let n = if tier == Tier::Quick { r.range(2, 16) } else if r.chance(1, 4) { r.range(17, 40) } else { r.range(2, 16) };
     let topo = *r.pick(TOPOLOGIES);
     let edges: Vec<Value> = gen_topology(&mut r, n, topo).into_iter().map(|(a, b)| json!([a, b])).collect();
@@ -101,6 +122,7 @@ fn shrink(sc: &Value) -> Vec<Value> {
 }
 
 pub fn node_addr(nd: &Value) -> SocketAddr {
+    if let Some(a) = nd["addr"].as_str().and_then(|s| s.parse::<SocketAddr>().ok()) { return a; }
     let ip = &nd["ip"];
     SocketAddr::from(([ip[0].as_u64().unwrap_or(10) as u8, ip[1].as_u64().unwrap_or(0) as u8, ip[2].as_u64().unwrap_or(0) as u8, ip[3].as_u64().unwrap_or(1) as u8], nd["port"].as_u64().unwrap_or(9000) as u16))
 }
@@ -267,6 +289,7 @@ fn execute(sc: &Value) -> RunReport {
             let queried: Vec<usize> = reqs.iter().map(|f| f.to).collect();
             if reqs.len() >= 2 { ctx.nontrivial = true; }
             if reqs.len() >= 12 { ctx.probe("long_lookup_12_or_more_requests"); }
+            if sc["topology"] == "flood" && replies.len() >= 11 { ctx.probe("flood_eleven_or_more_liar_replies"); }
             let ids: Vec<String> = result.iter().map(|d| d.peer_id.clone()).collect();
             ev!("lookup#{li} node={a} count={count} reqs={} replies={} -> {} entries [{}]", reqs.len(), replies.len(), result.len(), ids.iter().map(|i| dir.ids.get(i).map(|x| x.to_string()).unwrap_or_else(|| "?".into())).collect::<Vec<_>>().join(","));
             let situation = format!("{}:ident_{}", if fault_free { "fault_free" } else { "faults" }, if ident_a { "a" } else { "b" });
@@ -282,6 +305,7 @@ fn execute(sc: &Value) -> RunReport {
             }
             let as_nodes: Vec<Option<usize>> = ids.iter().map(|i| dir.ids.get(i).copied()).collect();
             let known: Vec<usize> = as_nodes.iter().flatten().copied().collect();
+            if sc["topology"] == "flood" && known.contains(&1) { ctx.probe("flood_hidden_node_found"); }
             if known.iter().collect::<BTreeSet<_>>().len() != known.len() {
                 ctx.violate("C01.result.same_peer_under_two_identifiers", situation.clone(), format!("lookup #{li}: the result names one peer twice under different identifiers: {ids:?}"));
             }
@@ -317,34 +341,59 @@ fn execute(sc: &Value) -> RunReport {
                 ctx.violate("C01.rpc.request_bound_exceeded", situation.clone(), format!("lookup #{li}: {} requests", reqs.len()));
             }
             // ---- closure over everything the lookup learned (serial regime: one lookup in flight)
-            let mut learned: BTreeMap<usize, [u8; 32]> = BTreeMap::new(); // node -> position the lookup would use
+            // node -> (position the lookup would use, time the lookup learned of it)
+            let mut learned: BTreeMap<usize, ([u8; 32], u64)> = BTreeMap::new();
             for d in &local0 {
                 if let Some(x) = dir.ids.get(&d.peer_id) {
                     let p = d.cached_dht_key.as_ref().map(|k| *k.as_bytes()).unwrap_or_else(|| derive_dht_key_from_peer_id(&d.peer_id));
-                    let e = learned.entry(*x).or_insert(p);
-                    if xor(&p, &key) < xor(e, &key) { *e = p; }
+                    let e = learned.entry(*x).or_insert((p, t_start));
+                    if xor(&p, &key) < xor(&e.0, &key) { e.0 = p; }
                 }
             }
+            // every contact named in a reply: address -> position (for judging dials to made-up contacts)
+            let mut named_at: BTreeMap<String, [u8; 32]> = BTreeMap::new();
             for f in &replies {
                 if let Some(DhtNetworkResult::NodesFound { nodes: ns, .. }) = f.dht.as_ref().and_then(|m| m.result.as_ref()) {
-                    for d in ns {
+                    for d in ns.iter().take(20) {
+                        named_at.entry(d.address.split(" (").next().unwrap_or("").to_string()).or_insert_with(|| derive_dht_key_from_peer_id(&d.peer_id));
                         if let Some(x) = dir.ids.get(&d.peer_id) {
                             let p = match d.distance.as_ref() { Some(v) if v.len() == 32 => { let mut b = [0u8; 32]; b.copy_from_slice(v); b } _ => derive_dht_key_from_peer_id(&d.peer_id) };
-                            let e = learned.entry(*x).or_insert(p);
-                            if xor(&p, &key) < xor(e, &key) { *e = p; }
+                            let e = learned.entry(*x).or_insert((p, f.deliver_ms));
+                            if xor(&p, &key) < xor(&e.0, &key) { e.0 = p; }
                         }
                     }
                 }
             }
             // "failed to answer" includes peers the lookup tried to reach and could not: a dial that was
             // refused, black-holed, or that did not complete before the caller gave up (no connection exists)
-            let dial_failed: BTreeSet<usize> = net.dials().iter().filter(|(t, from, _, target, ok)| *from == a && *t >= t_start && target.map(|x| !*ok || !net.connected(nodes[a].idx, x)).unwrap_or(false)).filter_map(|d| d.3).collect();
+            let my_dials: Vec<(u64, usize, SocketAddr, Option<usize>, bool)> = net.dials().into_iter().filter(|(t, from, _, _, _)| *from == a && *t >= t_start).collect();
+            let dial_failed: BTreeSet<usize> = my_dials.iter().filter(|(_, _, _, target, ok)| target.map(|x| !*ok || !net.connected(nodes[a].idx, x)).unwrap_or(false)).filter_map(|d| d.3).collect();
+            // every candidate the lookup spent budget on: (time, distance of that candidate to the key)
+            let mut attempts: Vec<(u64, [u8; 32])> = Vec::new();
+            for f in &reqs {
+                let pos = if f.to < n { dir.pos_tid[f.to] } else { derive_dht_key_from_peer_id(&net.tid(f.to)) };
+                attempts.push((f.t_ms, xor(&pos, &key)));
+            }
+            for (t, _, addr, target, ok) in &my_dials {
+                if *ok && target.is_some() { continue; } // followed by a request, counted above
+                let pos = match target { Some(x) if *x < n => Some(dir.pos_tid[*x]), Some(x) => Some(derive_dht_key_from_peer_id(&net.tid(*x))), None => named_at.get(&addr.to_string()).copied() };
+                // a dial we cannot attribute counts as an attempt on a closest-possible candidate
+                attempts.push((*t, pos.map(|p| xor(&p, &key)).unwrap_or([0u8; 32])));
+            }
+            // The request bound wins over closure: a lookup that has used up its 20 rounds must stop. What it
+            // may not do is spend rounds on candidates farther than a peer it already knew of. So an
+            // unqueried closer peer is excused only if the budget is plausibly exhausted (>= 20 attempts)
+            // and every attempt made after the peer was learned went to a closer candidate.
+            if attempts.len() >= 20 { ctx.probe("lookup_budget_exhausted"); }
             if let Some(far) = pos_used.last() {
                 let far_d = xor(far, &key);
-                for (x, p) in &learned {
+                for (x, (p, t_learned)) in &learned {
                     if *x == a || qset.contains(x) || dial_failed.contains(x) { continue; }
-                    if xor(p, &key) < far_d && reqs.len() < 60 {
-                        ctx.violate("C01.closure.closer_learned_peer_left_unqueried", situation.clone(), format!("lookup #{li} at node {a} (count {count}): node {x} was learned (local table or a reply), is strictly closer than the farthest returned entry, and was never sent a request; queried {queried:?}, result {:?}", as_nodes));
+                    let dp = xor(p, &key);
+                    if dp < far_d {
+                        let farther_attempt_later = attempts.iter().any(|(t, d)| *t >= *t_learned && *t > t_start && *d > dp);
+                        if attempts.len() >= 20 && !farther_attempt_later { ctx.probe("closure_excused_by_request_bound"); continue; }
+                        ctx.violate("C01.closure.closer_learned_peer_left_unqueried", situation.clone(), format!("lookup #{li} at node {a} (count {count}): node {x} was learned (local table or a reply), is strictly closer than the farthest returned entry, and was never sent a request ({} candidates were attempted{}); queried {queried:?}, result {:?}", attempts.len(), if farther_attempt_later { ", some of them farther and later" } else { "" }, as_nodes));
                         break;
                     }
                 }
@@ -371,5 +420,9 @@ fn execute(sc: &Value) -> RunReport {
     ctx.probes.entry("exactness_checked".into()).or_insert(0);
     ctx.probes.entry("long_lookup_12_or_more_requests".into()).or_insert(0);
     ctx.probes.entry("reply_after_timeout".into()).or_insert(0);
+    ctx.probes.entry("flood_eleven_or_more_liar_replies".into()).or_insert(0);
+    ctx.probes.entry("flood_hidden_node_found".into()).or_insert(0);
+    ctx.probes.entry("lookup_budget_exhausted".into()).or_insert(0);
+    ctx.probes.entry("closure_excused_by_request_bound".into()).or_insert(0);
     ctx.finish()
 }
